@@ -870,14 +870,17 @@ func (m *Memberlist) setAckHandler(seqNo uint32, ackFn func([]byte, time.Time), 
 	ah := &ackHandler{ackFn, nil, nil}
 	m.ackLock.Lock()
 	m.ackHandlers[seqNo] = ah
-	m.ackLock.Unlock()
 
-	// Setup a reaping routing
+	// Setup a reaping routing. The timer is assigned before the lock is
+	// released so that invokeAckHandler never sees a published handler
+	// without one; the callback itself takes the lock, so it cannot run
+	// its delete before the handler has been added.
 	ah.timer = time.AfterFunc(timeout, func() {
 		m.ackLock.Lock()
 		delete(m.ackHandlers, seqNo)
 		m.ackLock.Unlock()
 	})
+	m.ackLock.Unlock()
 }
 
 // Invokes an ack handler if any is associated, and reaps the handler immediately
